@@ -296,13 +296,14 @@ def check_inventory(prog, res, rule, entries, extra_failure=None):
             want = Want(e["codes"] or None, e["op"], e["L"], e["R"])
             gs = []
             sh = e.get("shape")
+            eop, eL, eR, esh = _canon_zero(e["op"], set(e["L"]), set(e["R"]), sh)
             for g in sites:
                 if e["codes"] and not (set(e["codes"]) & g.codes):
                     continue
-                straight = g.op == e["op"] and set(e["L"]) <= g.sL and set(e["R"]) <= g.sR and \
-                    (sh is None or (g.shL == sh[0] and g.shR == sh[1]))
-                swapped = g.op in REL and e["op"] in REL and REL_FLIP[g.op] == e["op"] and \
-                    set(e["L"]) <= g.sR and set(e["R"]) <= g.sL and (sh is None or (g.shR == sh[0] and g.shL == sh[1]))
+                gop, gL, gR, gsh = _canon_zero(g.op, g.sL, g.sR, [g.shL, g.shR])
+                straight = gop == eop and eL <= gL and eR <= gR and (esh is None or gsh == esh)
+                swapped = gop in REL and eop in REL and REL_FLIP[gop] == eop and \
+                    eL <= gR and eR <= gL and (esh is None or [gsh[1], gsh[0]] == esh)
                 if straight or swapped:
                     gs.append(g)
             key = "%s: %s %s %s -> %s" % (fname, (sh or [_fmt(e["L"])])[0], e["op"], (sh or ["", _fmt(e["R"])])[1], "/".join(e["codes"]))
@@ -321,6 +322,19 @@ def check_inventory(prog, res, rule, entries, extra_failure=None):
                     problems.append("%s() is reachable without passing it" % c)
             res.check(not problems, rule, key, "%s:%s" % (f.file, gs[0].line), "present; still dominates %s%s" % (
                 "success " if e.get("success") else "", ",".join(e.get("calls", [])[:4])), "; ".join(problems))
+
+
+def _canon_zero(op, L, R, sh):
+    """`x == 0` / `0 == x` is the same test as `!x`, `x != 0` the same as `x`: one canonical form
+    (zero / nonzero over the non-constant side), so that spelling a NULL test out is not a change"""
+    if op in ("==", "!=") and sh is not None:
+        for const_side, other in ((1, 0), (0, 1)):
+            if sh[const_side] == "0":
+                anc = (L, R)[other] | {a for a in (L, R)[const_side] if not a.startswith("k:")}
+                return ("zero" if op == "==" else "nonzero"), {a for a in anc if a != "k:0"}, set(), [sh[other], ""]
+    if op in ("zero", "nonzero"):
+        return op, {a for a in (L | R) if a != "k:0"}, set(), ([sh[0], ""] if sh is not None else None)
+    return op, L, R, sh
 
 
 def _fmt(a):
